@@ -13,6 +13,9 @@ Definition w_mixed_clocks : yaml := (YMap [("version", (YStr "2.2")); ("metadata
 Definition w_header_members : yaml := (YMap [("version", (YStr "2.2")); ("metadata", (YMap [("trace", (YMap [("byte-order", (YStr "le")); ("packet-header-type", (YMap [("class", (YStr "struct")); ("fields", (YMap [("magic", (YMap [("class", (YStr "int")); ("size", (YInt (32)%Z))])); ("stream_instance_id", (YMap [("class", (YStr "int")); ("size", (YInt (8)%Z))]))]))]))])); ("streams", (YMap [("s", (YMap [("packet-context-type", (YMap [("class", (YStr "struct")); ("fields", (YMap [("packet_size", (YMap [("class", (YStr "int")); ("size", (YInt (32)%Z))])); ("content_size", (YMap [("class", (YStr "int")); ("size", (YInt (32)%Z))]))]))])); ("event-header-type", (YMap [("class", (YStr "struct")); ("fields", (YMap [("cpu", (YMap [("class", (YStr "int")); ("size", (YInt (8)%Z))]))]))])); ("events", (YMap [("e", (YMap [("payload-type", (YMap [("class", (YStr "struct")); ("fields", (YMap [("x", (YMap [("class", (YStr "int")); ("size", (YInt (8)%Z))]))]))]))]))]))]))]))]))]).
 Definition w_payload_mapping : yaml := (YMap [("version", (YStr "2.2")); ("metadata", (YMap [("clocks", (YMap [("A", (YMap [("freq", (YInt (1000)%Z))]))])); ("trace", (YMap [("byte-order", (YStr "le"))])); ("streams", (YMap [("s", (YMap [("packet-context-type", (YMap [("class", (YStr "struct")); ("fields", (YMap [("packet_size", (YMap [("class", (YStr "int")); ("size", (YInt (32)%Z))])); ("content_size", (YMap [("class", (YStr "int")); ("size", (YInt (32)%Z))]))]))])); ("events", (YMap [("e", (YMap [("payload-type", (YMap [("class", (YStr "struct")); ("fields", (YMap [("x", (YMap [("class", (YStr "int")); ("size", (YInt (64)%Z)); ("property-mappings", (YSeq [(YMap [("type", (YStr "clock")); ("name", (YStr "A")); ("property", (YStr "value"))])]))]))]))]))]))]))]))]))]))]).
 
+(* the non-vacuity example of Props/C18.v (harness/props/c18_probes.py example_tree, loaded by the real barectf on every run) *)
+Definition ex_valid_doc : yaml := (YMap [("version", (YStr "2.1")); ("prefix", (YStr "my_tr__")); ("options", (YMap [("gen-prefix-def", (YBool true))])); ("metadata", (YMap [("$log-levels", (YMap [("WARN", (YInt (4)%Z))])); ("env", (YMap [("host", (YStr "h1")); ("n", (YInt (3)%Z))])); ("clocks", (YMap [("sys", (YMap [("freq", (YInt (1000000)%Z)); ("error-cycles", (YInt (2)%Z)); ("offset", (YMap [("seconds", (YInt (5)%Z))])); ("absolute", (YBool false)); ("$return-ctype", (YStr "unsigned long"))])); ("other", (YMap [("description", (YStr "unused")); ("return-ctype", YNull)]))])); ("trace", (YMap [("byte-order", (YStr "be")); ("uuid", (YStr "01234567-89ab-cdef-0123-456789abcdef")); ("packet-header-type", (YMap [("class", (YStr "struct")); ("fields", (YMap [("magic", (YMap [("class", (YStr "int")); ("size", (YInt (32)%Z))])); ("uuid", (YMap [("class", (YStr "array")); ("length", (YInt (16)%Z)); ("element-type", (YMap [("class", (YStr "int")); ("size", (YInt (8)%Z))]))])); ("stream_id", (YMap [("class", (YStr "int")); ("size", (YInt (8)%Z))]))]))]))])); ("$default-stream", (YStr "second")); ("streams", (YMap [("first", (YMap [("packet-context-type", (YMap [("class", (YStr "struct")); ("fields", (YMap [("timestamp_begin", (YMap [("class", (YStr "int")); ("size", (YInt (64)%Z)); ("signed", (YBool false)); ("property-mappings", (YSeq [(YMap [("type", (YStr "clock")); ("name", (YStr "sys")); ("property", (YStr "value"))])]))])); ("packet_size", (YMap [("class", (YStr "int")); ("size", (YInt (32)%Z))])); ("content_size", (YMap [("class", (YStr "int")); ("size", (YInt (32)%Z))])); ("my_extra", (YMap [("class", (YStr "int")); ("size", (YInt (5)%Z)); ("signed", YNull)])); ("timestamp_end", (YMap [("class", (YStr "int")); ("size", (YInt (64)%Z)); ("signed", (YBool false)); ("property-mappings", (YSeq [(YMap [("type", (YStr "clock")); ("name", (YStr "sys")); ("property", (YStr "value"))])]))])); ("events_discarded", (YMap [("class", (YStr "int")); ("size", (YInt (16)%Z))]))]))])); ("event-header-type", (YMap [("class", (YStr "struct")); ("fields", (YMap [("timestamp", (YMap [("class", (YStr "int")); ("size", (YInt (32)%Z)); ("signed", (YBool false)); ("property-mappings", (YSeq [(YMap [("type", (YStr "clock")); ("name", (YStr "sys")); ("property", (YStr "value"))])]))])); ("id", (YMap [("class", (YStr "int")); ("size", (YInt (8)%Z))]))]))])); ("event-context-type", (YMap [("class", (YStr "struct")); ("fields", (YMap [("cpu", (YMap [("class", (YStr "int")); ("size", (YInt (8)%Z))]))]))])); ("events", (YMap [("ev1", (YMap [("log-level", (YStr "WARN")); ("payload-type", (YMap [("class", (YStr "struct")); ("min-align", (YInt (16)%Z)); ("fields", (YMap [("e", (YMap [("class", (YStr "enum")); ("value-type", (YMap [("class", (YStr "int")); ("size", (YInt (8)%Z)); ("signed", (YBool true)); ("align", (YInt (8)%Z)); ("base", (YStr "hex"))])); ("members", (YSeq [(YStr "ZERO"); (YMap [("label", (YStr "TEN")); ("value", (YInt (10)%Z))]); (YStr "ELEVEN"); (YMap [("label", (YStr "RNG")); ("value", (YSeq [(YInt (20)%Z); (YInt (29)%Z)]))]); (YStr "THIRTY"); (YMap [("label", (YStr "ZERO")); ("value", (YInt (-1)%Z))])]))])); ("f", (YMap [("class", (YStr "floating-point")); ("size", (YMap [("exp", (YInt (11)%Z)); ("mant", (YInt (53)%Z))])); ("align", (YInt (64)%Z))])); ("s", (YMap [("class", (YStr "string")); ("encoding", (YStr "utf8"))])); ("a", (YMap [("class", (YStr "array")); ("length", (YInt (2)%Z)); ("element-type", (YMap [("class", (YStr "array")); ("length", (YInt (3)%Z)); ("element-type", (YMap [("class", (YStr "int")); ("size", (YInt (3)%Z))]))]))])); ("d", (YMap [("class", (YStr "array")); ("length", (YStr "dynamic")); ("element-type", (YMap [("class", (YStr "int")); ("size", (YInt (16)%Z)); ("align", (YInt (16)%Z))]))]))]))]))])); ("ev2", (YMap [("log-level", (YInt (3)%Z)); ("context-type", (YMap [("class", (YStr "struct")); ("fields", (YMap [("c", (YMap [("class", (YStr "int")); ("size", (YInt (1)%Z))]))]))])); ("payload-type", YNull)]))]))])); ("second", (YMap [("$default", YNull); ("packet-context-type", (YMap [("class", (YStr "struct")); ("fields", (YMap [("packet_size", (YMap [("class", (YStr "int")); ("size", (YInt (16)%Z))])); ("content_size", (YMap [("class", (YStr "int")); ("size", (YInt (16)%Z))]))]))])); ("events", (YMap [("only", (YMap [("payload-type", (YMap [("class", (YStr "struct")); ("fields", (YMap [("x", (YMap [("class", (YStr "int")); ("size", (YInt (64)%Z)); ("signed", (YBool true))]))]))]))]))]))]))]))]))]).
+
 (* ================================================================== version detection *)
 Lemma version_detect_tagged : forall l, major_version true (YMap l) = Ok 3%Z.
 Proof. reflexivity. Qed.
@@ -2080,8 +2083,6 @@ Proof.
   { unfold conv_config. rewrite Hhas. cbn [negb]. rewrite Hp.
     fold cg0. destruct (getn "options" (del "prefix" (del "version" root))) as [[| | | | | |ol]|]; try discriminate;
       inversion Rcg; subst cg; cbn [rbind]; fold r3;
-      (assert (Hm' : lookup "metadata" (put "options" (YMap [("code-generation", YMap cg0)]) r3) = Some (YMap m)
-                     \/ True) by (right; exact I));
       match goal with
       | |- match lookup "metadata" ?X with _ => _ end = _ =>
           assert (Hm2 : lookup "metadata" X = Some (YMap m)) by (unfold r3; lk; exact Emeta); rewrite Hm2
@@ -2118,6 +2119,34 @@ Proof.
                 | Some _ => None
                 end = Some cks).
   { unfold opt_of. rewrite N4. destruct cl' as [c|]; [exact Rclk3|subst cks; reflexivity]. }
-  rewrite Hck. cbn [obind]. unfold sub at 1. rewrite N5.
-  rewrite Rf1, Rf2, Rf3. cbn [obind]. rewrite N6. rewrite Rds3. cbn [obind]. reflexivity.
+  rewrite Hck. cbn [obind]. unfold sub at 1. rewrite N5. cbn [obind].
+  rewrite Rf1. cbn [obind]. rewrite Rf2. cbn [obind]. rewrite Rf3. cbn [obind]. rewrite N6. rewrite Rds3. cbn [obind]. reflexivity.
+Qed.
+
+(* ================================================================== full-strength statements and their refutations *)
+Definition equiv_full_statement : Prop :=
+  forall fuel t g, v2_sem fuel t = Some g -> exists t', conv_config t = Ok t' /\ v3_sem fuel t' = Some g.
+
+Theorem equiv_full_refuted : ~ equiv_full_statement.
+Proof.
+  intros F. destruct H3_seq_num_refuted as [g [Hg Hn]].
+  destruct (F 10%nat w_seq_num g Hg) as [t' [H1 H2]]. exact (Hn t' H1 H2).
+Qed.
+
+Definition ft_full_statement : Prop :=
+  forall fuel y f, v2_ft fuel y = Some f -> exists y', conv_ft y = Ok y' /\ v3_ft fuel y' = Some (erase_clk f).
+
+Definition w_ft_fields_null : yaml := YMap [("class", YStr "struct"); ("fields", YNull)].
+Definition w_ft_real_bo : yaml :=
+  YMap [("class", YStr "float"); ("size", YMap [("exp", YInt 8); ("mant", YInt 24)]); ("byte-order", YStr "le")].
+
+Theorem ft_full_refuted :
+  ~ ft_full_statement
+  /\ (v2_ft 2 w_ft_fields_null = Some (FStruct None []) /\ conv_ft w_ft_fields_null = Crash)
+  /\ (v2_ft 2 w_ft_real_bo = Some (FReal 32 None) /\ exists y', conv_ft w_ft_real_bo = Ok y' /\ v3_ft 2 y' = None).
+Proof.
+  split; [|split].
+  - intros F. destruct (F 2%nat w_ft_fields_null (FStruct None []) eq_refl) as [y' [H _]]. vm_compute in H. discriminate.
+  - split; reflexivity.
+  - split; [reflexivity|]. eexists. split; vm_compute; reflexivity.
 Qed.
